@@ -973,7 +973,7 @@ func execClientRig(c *Case, trace bool, prop string) Verdict {
 					r.evSent[ord]++
 					seq := r.evSent[ord]
 					r.mu.Unlock()
-					if !r.routerSendLocked(&wamp.Event{Subscription: idOf(ord), Publication: wamp.ID(seq), Details: wamp.Dict{}, Arguments: wamp.List{ord, seq}}) {
+					if !r.routerSendLocked(&wamp.Event{Subscription: idOf(ord), Publication: wamp.ID(seq), Details: wamp.Dict{"x_burst": true}, Arguments: wamp.List{ord, seq}}) {
 						return
 					}
 				}
@@ -1230,9 +1230,19 @@ func (r *rig) runAPI(op *Op) {
 			}
 			r.evBusy = true
 			seq := 0
-			if len(ev.Arguments) == 2 {
-				n, _ := wamp.AsInt64(ev.Arguments[1])
-				seq = int(n)
+			if _, burst := ev.Details["x_burst"]; burst && len(ev.Arguments) == 2 {
+				// a burst event carries [ordinal, sequence] as integers; a hostile raw
+				// EVENT that merely resembles one (other ordinal, float sequence) is not counted
+				if o, ok := ev.Arguments[0].(int64); ok && int(o) == ord || ev.Arguments[0] == ord {
+					switch n := ev.Arguments[1].(type) {
+					case int:
+						seq = n
+					case int64:
+						seq = int(n)
+					case uint64:
+						seq = int(n)
+					}
+				}
 			}
 			if seq > 0 && ev.Publication == wamp.ID(seq) { // hostile raw EVENTs carry no sequence number
 				r.evSeq[ord] = append(r.evSeq[ord], seq)
